@@ -13,19 +13,29 @@ Definition scale_unit_real (v : Z) (f t : string) : string := snd (scale unit_ty
 
 Definition of_outcome_panic (s : string) : term := TL [TS "panic"; TS s].
 
-Definition of_event (e : event) : term :=
-  match e with
-  | ELine => TL [TS "line"]
-  | EErr => TL [TS "err"]
-  | EReport cmd cfg => TL [TS "report"; of_ss cmd; TL cfg]
-  end.
-
 Definition params_of (t : term) : list (string * string) := map (fun e => (gs (gn e 0), gs (gn e 1))) (gl t).
 
 (* handlers that go through webInterface.makeReport *)
 Definition report_paths : list string := ["/"; "/top"; "/disasm"; "/source"; "/peek"; "/flamegraph"].
 
 Definition dflt : config := default_config config_fields.
+
+(* a configuration is shipped as the (index, value) pairs that differ from the default one *)
+Fixpoint cfg_diff (i : Z) (d c : list term) : list term :=
+  match d, c with
+  | x :: d', y :: c' => if term_eqb x y then cfg_diff (i + 1) d' c' else TL [TZ i; y] :: cfg_diff (i + 1) d' c'
+  | [], y :: c' => TL [TZ i; y] :: cfg_diff (i + 1) [] c'
+  | _, [] => []
+  end.
+Definition of_cfg (c : config) : term := TL (cfg_diff 0 dflt c).
+
+Definition of_event (e : event) : term :=
+  match e with
+  | ELine => TL [TS "line"]
+  | EErr => TL [TS "err"]
+  | EReport cmd cfg => TL [TS "report"; of_ss cmd; of_cfg cfg]
+  end.
+
 
 Definition run_C09 (i : term) : term :=
   let op := gs (gn i 0) in
@@ -52,13 +62,13 @@ Definition run_C09 (i : term) : term :=
        end) (gl (gn i 2)) []
   else if String.eqb op "set" then
     match configure config_fields (pf_of (gn i 3)) dflt (gs (gn i 1)) (gs (gn i 2)) with
-    | Ok c => TL [TS "ok"; TL c]
-    | Err => TL [TS "error"; TL dflt]
+    | Ok c => TL [TS "ok"; of_cfg c]
+    | Err => TL [TS "error"; of_cfg dflt]
     | Panic s => of_outcome_panic s
     end
   else if String.eqb op "url" then
     match apply_url config_fields (pf_of (gn i 3)) (params_of (gn i 2)) dflt with
-    | Ok c => TL [TS "ok"; TL c]
+    | Ok c => TL [TS "ok"; of_cfg c]
     | Err => TL [TS "error"]
     | Panic s => of_outcome_panic s
     end
@@ -66,8 +76,8 @@ Definition run_C09 (i : term) : term :=
     let pf := pf_of (gn i 5) in
     let start := match configure config_fields pf dflt "compact_labels" "true" with Ok c => c | _ => dflt end in
     match session config_fields pf commands help_keys (gss (gn i 2)) (gs (gn i 3)) start (gss (gn i 4)) [] with
-    | SCont c evs => TL [TS "ok"; TL (map of_event evs); TL c; TL []]
-    | SQuit c evs => TL [TS "ok"; TL (map of_event evs); TL c; TL []]
+    | SCont c evs => TL [TS "ok"; TL (map of_event evs); of_cfg c; TL []]
+    | SQuit c evs => TL [TS "ok"; TL (map of_event evs); of_cfg c; TL []]
     | SPanic evs s => TL [of_outcome_panic s; TL (map of_event evs); TL []; TL []]
     end
   else if String.eqb op "web" then
